@@ -4,6 +4,8 @@
 mod body;
 mod codegen;
 mod negotiate;
+mod safelong;
+mod tokens;
 mod uri;
 mod util;
 
@@ -15,6 +17,8 @@ fn main() {
         "codegen-safe" => codegen::codegen_safe(rest),
         "negotiate" => negotiate::negotiate(rest),
         "uri" => uri::uri(rest),
+        "tokens" => tokens::tokens(rest),
+        "safelong" => safelong::safelong(rest),
         "body" => body::body(rest),
         _ => {
             eprintln!("unknown subcommand {cmd:?}");
